@@ -11,6 +11,13 @@ inside the region of an open finding the code must still behave like the as-is m
 Oracle: written from the property statement — the concatenation of the delivered chunks and `completion`
 both equal `expected(text)` = drop the prefix, cut at the first stop sequence, drop the suffix — for every
 chunking (hence identical across chunkings).
+
+Phase 2/4 case kinds: `usage` (harness/impl/c18_usage.py: two real handlers driven exactly like
+generate_intent_steps_message + generate_bot_message, every chunking x every schedule; also the value
+wait_top_k_nonempty_lines returns), `topk` (one buffer through the real `_process` buffering branch and
+`wait_top_k_nonempty_lines` against the line-by-line Lean model AND the character scans), plain cases with
+`pipe_cfg` (two-stage pipe: the piped handler has its own patterns; its queue, completion and finished flag are
+compared with `pipeTargetCfg`), plain cases with an empty first token through on_llm_new_token.
 """
 import asyncio
 import uuid
@@ -25,7 +32,12 @@ RULE = ("configuration: prefix/suffix (absent or 1-3 chars) and 0-3 stop sequenc
         "`\\nUser intent: `); text = [prefix] + body [+ suffix] [+ stop + tail] with partial patterns injected; exhaustive cases run "
         "ALL 2^(n-1) chunkings (n<=7 quick, n<=10 thorough), long texts (n<=200) run sampled chunkings incl. 1-char and single-chunk; "
         "every end-of-stream protocol (push_chunk(\"\"), push_chunk(None), on_llm_end, \"\"+on_llm_end), queue and pipe_to mode, "
-        "push_chunk and on_llm_new_token feeding; a small malformed stream (empty chunks mid-stream) is compared with the model only. "
+        "push_chunk and on_llm_new_token feeding; an empty FIRST token through on_llm_new_token (ignored by design: the property applies); "
+        "a small malformed stream (empty chunks mid-stream) is compared with the model only. "
+        "40% of the piped exhaustive cases pipe into a handler with its OWN patterns (two-stage pipe); 8% of the small configurations draw text and patterns from "
+        "non-ASCII alphabets (NO-BREAK SPACE, IDEOGRAPHIC SPACE, LINE SEPARATOR, NEL, a combining mark, an astral character); usage cases: heads with lines that are "
+        "blank only for str.strip() (U+00A0, U+3000, U+2028, U+0085, \\x1c), comment lines behind such blanks, ZERO WIDTH SPACE (not a blank), texts with fewer than k+1 "
+        "non-empty lines (the waiter must not resume); topk cases: one buffer of 0-6 lines for _process (event) and wait_top_k_nonempty_lines (returned value, buffer left). "
         "non-trivial = at least one pattern configured, >= 2 chunkings, the text starts with the prefix (if any) and contains the first "
         "character of a configured suffix/stop sequence or a prefix is configured; distinct = distinct case JSON.")
 TRUSTED_BASE = [
@@ -33,7 +45,10 @@ TRUSTED_BASE = [
     "asyncio (queue FIFO order, tasks created by pipe_to run in creation order), CPython str methods startswith/endswith/find/in/slicing",
 ]
 ASSUMPTIONS = [
-    "the configuration (set_pattern, stop) is fixed before the first chunk; stop sequences are non-empty; buffering (enable_buffer) is off",
+    "plain cases: the configuration (set_pattern, stop) is fixed before the first chunk, buffering is off; usage cases: exactly the protocol generation.py performs (extracted by the translator, theorem generated_protocol_ok): enable_buffering, tokens, wait_top_k_nonempty_lines, set_pattern, tokens, set_pipe_to, stop=, disable_buffering, tokens, on_llm_end at any of its positions; stop sequences are non-empty",
+    "a text is a sequence of Unicode scalar values (Python str without lone surrogates = List Char in Lean); a chunk boundary may fall between ANY two code points, also between a base character and its combining mark; an astral character is one code point on both sides (no boundary inside it); lone surrogates cannot pass the JSON codecs and are outside the quantifier",
+    "white space (str.strip() in _process / wait_top_k_nonempty_lines) = the code points with str.isspace() in the running CPython, regenerated into Generated/C18.lean on every run and pinned by theorem ws_table_pinned",
+    "two-stage pipe: the consumer-side statement needs an end marker from the producer (always there with on_llm_end; push_chunk(\"\")/push_chunk(None) forward none after a stop sequence was hit or when text was held back) — without it only model = implementation is checked",
     "tokens are non-empty strings (the end markers are the only empty chunks); nothing is pushed after on_llm_end",
     "a text that does not start with the configured prefix: push_chunk end markers deliver nothing, on_llm_end flushes the whole text (as implemented; interpretation of 'the configured prefix removed')",
     "modelled by hand: StreamingHandler.push_chunk, _process, _forward, _remove_suffix_at_end, on_llm_end, on_llm_new_token (first empty token)",
@@ -53,6 +68,8 @@ def units_of(case):
     """the individual handler runs of a case (chunkings, or [chunks, a, b, end] schedules for usage cases)"""
     if case.get("kind") == "usage":
         return us.units(case)
+    if case.get("kind") == "topk":
+        return [[case["text"]]]
     return chunkings_of(case)
 
 # --------------------------------------------------------------------------------------------- chunkings
@@ -103,15 +120,21 @@ LIB_CFGS = [
     {"prefix": None, "suffix": None, "stop": ["\nuser ", "\nUser "]},
     {"prefix": '  "', "suffix": '"', "stop": ['"\n', "\nuser "]},
 ]
-WORDS = ["Hello", " there", "!", " This is", " a message", ".", " \"quoted\"", "\n", "User", " intent: ", "ask", " question", "é", "  ", "user ", "Bot", " message: ", ":"]
+WORDS = ["Hello", " there", "!", " This is", " a message", ".", " \"quoted\"", "\n", "User", " intent: ", "ask", " question", "é", "  ", "user ", "Bot", " message: ", ":", "\u00a0", "\u2028", "\u3000", "e\u0301"]
 
 
 def g_word(rng, alpha, lo, hi):
     return "".join(rng.choice(alpha) for _ in range(rng.randint(lo, hi)))
 
 
+UNI_ALPHAS = ['a\u00a0"', 'a\u0301\u3000S', 'e\u0301\u2028"', '\U0001F600a\u00a0', '\u00e9\u0301\u0085']
+
+
 def g_small_cfg(rng):
     alpha = 'ab"SP'[: rng.choice([2, 3, 3, 4, 5])]
+    if rng.random() < 0.08:
+        # non-ASCII code points: no-break / ideographic / line-separator blanks, a combining mark, an astral character
+        alpha = rng.choice(UNI_ALPHAS)
     prefix = g_word(rng, alpha, 1, 3) if rng.random() < 0.55 else None
     suffix = g_word(rng, alpha, 1, 3) if rng.random() < 0.6 else None
     stop = [g_word(rng, alpha, 1, 3) for _ in range(rng.choice([0, 0, 1, 1, 1, 2, 2, 3]))]
@@ -154,10 +177,24 @@ def g_text(rng, alpha, cfg, maxlen, body_hi):
     return t
 
 
+def g_pipe_cfg(rng, alpha):
+    """configuration of the handler at the far end of pipe_to (two-stage pipe): patterns over the same alphabet"""
+    return {"prefix": g_word(rng, alpha, 1, 2) if rng.random() < 0.4 else None,
+            "suffix": g_word(rng, alpha, 1, 2) if rng.random() < 0.6 else None,
+            "stop": [g_word(rng, alpha, 1, 2) for _ in range(rng.choice([0, 1, 1, 2]))]}
+
+
 def g_exhaustive_case(rng, maxlen):
     alpha, cfg = g_small_cfg(rng)
     text = g_text(rng, alpha, cfg, maxlen, 4)
-    return dict(cfg, text=text, end=rng.choice(ENDS), pipe=rng.random() < 0.3, feed="token" if rng.random() < 0.2 else "push", mode="all")
+    case = dict(cfg, text=text, end=rng.choice(ENDS), pipe=rng.random() < 0.3, feed="token" if rng.random() < 0.2 else "push", mode="all")
+    if case["pipe"] and rng.random() < 0.4:
+        case["pipe_cfg"] = g_pipe_cfg(rng, alpha)
+        if rng.random() < 0.5:
+            # make the second stage matter: what the producer delivers starts with the second prefix
+            inner = (case["pipe_cfg"]["prefix"] or "") + g_word(rng, alpha, 0, 2) + (case["pipe_cfg"]["suffix"] or "")
+            case["text"] = ((cfg["prefix"] or "") + inner + (cfg["suffix"] or ""))[:maxlen]
+    return case
 
 
 def g_long_case(rng, nsamples):
@@ -201,14 +238,26 @@ def g_malformed_case(rng):
     return dict(cfg, text=text, end=rng.choice(ENDS), pipe=rng.random() < 0.3, feed="token" if rng.random() < 0.3 else "push", mode="list", chunkings=cks, malformed=True)
 
 
+def g_first_empty_token_case(rng):
+    """LangChain may deliver an empty FIRST token (on_llm_new_token ignores it explicitly): same text, so the property applies"""
+    alpha, cfg = g_small_cfg(rng)
+    text = g_text(rng, alpha, cfg, 8, 4)
+    cks = [[""] + random_chunking(rng, text, rng.choice([0.2, 0.5, 0.9])) for _ in range(4)]
+    return dict(cfg, text=text, end=rng.choice(ENDS), pipe=rng.random() < 0.3, feed="token", mode="list", chunkings=cks, first_empty=True)
+
+
 USAGE_HEADS = ["u\nb\n", "u\n\nb\n", "#c\nu\nb\n", " u\n b\n", "u\nb\n\n"]
+# lines that are blank / comments only for str.strip()'s notion of white space (U+00A0, U+3000, U+2028, U+0085, \x1c)
+USAGE_HEADS_UNI = ["u\n\u00a0\nb\n", "\u3000u\n\u2028\nb\n", "u\x1c\n\u0085\nb\n", "\u00a0#c\nu\nb\n", "u\nb\n\u00a0\n", "\u2028\nu\n\u3000b\n", "u\u200b\n\u200b\nb\n"]
 
 
 def g_usage_small(rng, maxbody):
     """small single-call case: 2 header lines, then a bot-message line over a tiny alphabet; every chunking x every schedule"""
     prefix, suffix, stop = rng.choice([('  "', '"', ['"\n']), ('B"', '"', ['"\n']), ('  "', '"', ['"\n', "\nu"]), ('P', 'S', ['SX']), ('P', None, ['X']), (None, '"', ['"\n'])])
-    head = rng.choice(USAGE_HEADS)
+    head = rng.choice(USAGE_HEADS if rng.random() < 0.7 else USAGE_HEADS_UNI)
     alpha = ('ab" \n' if '"' in (suffix or "") + "".join(stop) else "abSXP\n")
+    if rng.random() < 0.15:
+        alpha += "\u00a0"
     body = "".join(rng.choice(alpha) for _ in range(rng.randint(0, maxbody)))
     r = rng.random()
     pre = (prefix or "") if r < 0.8 else (prefix or "")[:-1] if r < 0.9 else ""
@@ -217,19 +266,24 @@ def g_usage_small(rng, maxbody):
     if len(text) > 9:
         text = head + pre + tail
     text = text[:10]
+    if rng.random() < 0.1:
+        # fewer than k+1 non-empty lines / the k-th line unterminated: the waiter must never resume
+        text = rng.choice(["u\n\u00a0\n", "u\nb", "u\n#b\n x", "\n\n", "u\nb\n\u3000"]) + rng.choice(["", "\n", " "])
     return dict(kind="usage", prefix=prefix, suffix=suffix, stop=stop, k=2, text=text, mode="all", direct=False)
 
 
 def g_usage_long(rng, sites, nsamples):
     """a call site extracted from generation.py, a realistic LLM completion, sampled chunkings x sampled schedules"""
     site = rng.choice(sites)
-    intent = rng.choice(["  express greeting", "user express greeting", "User intent: ask question", "  ask about é"])
+    intent = rng.choice(["  express greeting", "user express greeting", "User intent: ask question", "  ask about é", "\u00a0 express greeting", "\u3000ask"])
     botint = rng.choice(["bot express greeting", "Bot intent: respond", "bot inform"])
     msg = "".join(rng.choice(WORDS) for _ in range(rng.randint(1, 10))).replace("\n", " ")
     r = rng.random()
     tail = "" if r < 0.4 else "\n" if r < 0.6 else "\nbot ask" + rng.choice(["", " more\n  \"x\""]) if r < 0.85 else "\n\n"
     line3 = (site["prefix"] if rng.random() < 0.9 else "") + msg + (site["suffix"] if rng.random() < 0.9 else "")
-    text = rng.choice(["", "\n", "# c\n"]) + intent + "\n" + rng.choice(["", "\n"]) + botint + "\n" + line3 + tail
+    if rng.random() < 0.04:
+        line3 = line3.replace(" ", "\u00a0", 1)  # a NO-BREAK SPACE where the pattern expects a space: the prefix is NOT there
+    text = rng.choice(["", "\n", "# c\n", "\u00a0\n", " \u2028\t\n", "\u3000# c\n"]) + intent + "\n" + rng.choice(["", "\n", "\u00a0\u0085\n"]) + botint + "\n" + line3 + tail
     if not site["buffered"]:
         text = line3 + tail
         cks = [[text], list(text)] + [random_chunking(rng, text, rng.choice([0.1, 0.3, 0.6])) for _ in range(nsamples)]
@@ -247,11 +301,39 @@ def g_usage_long(rng, sites, nsamples):
     return dict(kind="usage", prefix=site["prefix"] or None, suffix=site["suffix"] or None, stop=site["stop"], k=site["k"], text=text, mode="list", direct=False, schedules=scheds, site=site["site"])
 
 
+TOPK_ALPHA = ["a", "b", "#", " ", "\n", "\n", "\t", "\r", "\u00a0", "\u3000", "\u2028", "\u0085", "\x1c", "\u200b", "\x0b"]
+
+
+def g_topk_case(rng, ws_codes):
+    """one buffer for wait_top_k_nonempty_lines / the event condition: 0-6 lines (blank, blank for str.strip() only,
+    comment, content with leading/trailing Unicode blanks), so that fewer than k, exactly k and more than k non-empty lines all occur"""
+    if rng.random() < 0.25:
+        alpha = TOPK_ALPHA + [chr(rng.choice(ws_codes))]
+        text = "".join(rng.choice(alpha) for _ in range(rng.randint(0, 14)))
+    else:
+        def blank():
+            return "".join(chr(rng.choice(ws_codes)) if rng.random() < 0.6 else rng.choice(" \t") for _ in range(rng.randint(0, 3))).replace("\n", "")
+        lines = []
+        for _ in range(rng.randint(0, 6)):
+            q = rng.random()
+            if q < 0.25:
+                lines.append(blank())
+            elif q < 0.4:
+                lines.append(blank() + "#" + rng.choice(["", " c", "\u00a0"]))
+            elif q < 0.5:
+                lines.append(blank() + "\u200b" + blank())   # ZERO WIDTH SPACE is not white space: the line counts
+            else:
+                lines.append(blank() + rng.choice(["u", "b x", "a#", "\u00e9", "x\u00a0y"]) + blank())
+        text = "\n".join(lines) + rng.choice(["", "\n", "\n\n"])
+    return dict(kind="topk", k=rng.choice([1, 2, 2, 3]), text=text)
+
+
 def gen_usage_cases(rng, tier):
     info = tr.run()
-    n_small, maxbody, n_long, ns = (70, 3, 300, 6) if tier == "quick" else (500, 5, 5000, 8)
+    n_small, maxbody, n_long, ns, n_topk = (70, 3, 300, 6, 1500) if tier == "quick" else (500, 5, 5000, 8, 12000)
     cases = [g_usage_small(rng, maxbody) for _ in range(n_small)]
     cases += [g_usage_long(rng, info["sites"], ns) for _ in range(n_long)]
+    cases += [g_topk_case(rng, info["ws_codes"]) for _ in range(n_topk)]
     return cases
 
 
@@ -268,6 +350,8 @@ def gen_cases(rng, tier):
         cases.append(g_long_case(rng, ns))
     for _ in range(n_mal):
         cases.append(g_malformed_case(rng))
+    for _ in range(n_mal // 2):
+        cases.append(g_first_empty_token_case(rng))
     return cases + gen_usage_cases(rng, tier)
 
 
@@ -295,6 +379,9 @@ async def _one(case, chunks):
     tgt = h
     if case["pipe"]:
         tgt = StreamingHandler()
+        if case.get("pipe_cfg"):
+            tgt.set_pattern(prefix=case["pipe_cfg"]["prefix"], suffix=case["pipe_cfg"]["suffix"])
+            tgt.stop = list(case["pipe_cfg"]["stop"])
         h.set_pipe_to(tgt)
     rid = uuid.UUID(int=0)
     for c in chunks:
@@ -315,14 +402,33 @@ async def _one(case, chunks):
     items = []
     while not tgt.queue.empty():
         items.append(tgt.queue.get_nowait())
+    if case.get("pipe_cfg"):
+        return [items, h.completion, h.streaming_finished_event.is_set(), tgt.completion, tgt.streaming_finished_event.is_set()]
     return [items, h.completion, h.streaming_finished_event.is_set()]
+
+
+async def _guarded(make, hangs):
+    """one handler run under a watchdog.  A TimeoutError can be spurious (the machine / VM stalled while the timer ran —
+    observed under load: 1 of 13 056 runs); a real hang of the code under test is deterministic, so the run is repeated
+    once with a longer limit before the timeout is recorded as an observation (at most twice per case, then no more retries)."""
+    try:
+        return await asyncio.wait_for(make(), 20)
+    except asyncio.TimeoutError:
+        if hangs[0] >= 2:
+            raise
+    try:
+        return await asyncio.wait_for(make(), 60)
+    except asyncio.TimeoutError:
+        hangs[0] += 1
+        raise
 
 
 async def _all(case):
     runs = []
+    hangs = [0]
     for chunks in chunkings_of(case):
         try:
-            runs.append(await asyncio.wait_for(_one(case, chunks), 20))
+            runs.append(await _guarded(lambda: _one(case, chunks), hangs))
         except Exception as e:  # noqa -- an exception out of the handler is an observation
             runs.append([["<exc>"], "<exc:" + type(e).__name__ + ">", False])
     return runs
@@ -330,18 +436,35 @@ async def _all(case):
 
 async def _all_usage(case):
     runs = []
+    hangs = [0]
     for unit in us.units(case):
         try:
             if case.get("direct"):
-                runs.append(await asyncio.wait_for(us.run_direct(_H[0], case, unit), 20))
+                runs.append(await _guarded(lambda: us.run_direct(_H[0], case, unit), hangs))
             else:
-                runs.append(await asyncio.wait_for(us.run_single_call(_H[0], case, unit, _H[2]), 20))
+                runs.append(await _guarded(lambda: us.run_single_call(_H[0], case, unit, _H[2]), hangs))
         except Exception as e:  # noqa
             runs.append({"event": True, "items": ["<exc>"], "completion": "<exc:" + type(e).__name__ + ">", "finished": False})
     return runs
 
 
+async def _topk(case):
+    """the real `_process` (buffering branch) and `wait_top_k_nonempty_lines` on one buffer; the waiter is resumed
+    even when the event is not set, so that the whole loop (also `fewer than k lines`) is compared"""
+    h = _H[0]()
+    await h.enable_buffering()
+    waiter = asyncio.ensure_future(h.wait_top_k_nonempty_lines(k=case["k"]))
+    await asyncio.sleep(0)
+    await h.push_chunk(case["text"])
+    event = h.top_k_nonempty_lines_event.is_set()
+    h.top_k_nonempty_lines_event.set()
+    returned = await waiter
+    return {"event": event, "returned": returned, "rest": h.buffer}
+
+
 def run_impl(case):
+    if case.get("kind") == "topk":
+        return asyncio.run(_topk(case))
     if case.get("kind") == "usage":
         return {"runs": asyncio.run(_all_usage(case))}
     return {"runs": asyncio.run(_all(case))}
@@ -350,6 +473,8 @@ def run_impl(case):
 # --------------------------------------------------------------------------------------------- model
 
 def model_requests(case, obs):
+    if case.get("kind") == "topk":
+        return [{"m": "C18.topk", "k": case["k"], "text": case["text"]}]
     if case.get("kind") == "usage":
         req = {"m": "C18.usage", "cfg": {"prefix": case["prefix"], "suffix": case["suffix"], "stop": case["stop"]}, "k": case["k"],
                "direct": bool(case.get("direct")), "schedules": us.units(case), "variant": "repaired"}
@@ -357,6 +482,8 @@ def model_requests(case, obs):
         return [req, dict(req, variant="tree")]
     req = {"m": "C18.runMany", "cfg": {"prefix": case["prefix"], "suffix": case["suffix"], "stop": case["stop"]},
            "end": case["end"], "tokens": case["feed"] == "token", "pipe": bool(case["pipe"]), "chunkings": chunkings_of(case)}
+    if case.get("pipe_cfg"):
+        req["pipe_cfg"] = case["pipe_cfg"]
     # [0] the repaired handler (the model the theorems are about), [1] the handler as it is in the unpatched tree
     return [req, dict(req, asis=True)]
 
@@ -370,9 +497,20 @@ def _pick(case, bad):
     return bad[0]
 
 
+def compare_topk(case, obs, mouts):
+    m = mouts[0]
+    want = {"returned": m["returned"], "rest": m["rest"], "event": m["lines"] > case["k"] > 0}
+    if m["scan_rest"] != m["rest"] or m["scan_lines"] != m["lines"]:
+        return f"the character scans disagree with the line-by-line model: {m}"
+    if obs != want:
+        return f"buffer {case['text']!r} k={case['k']}: implementation {obs} but model {want}"
+    return None
+
+
 def compare_usage(case, obs, mouts):
     m, ma = mouts[0], mouts[1]
     runs = obs["runs"]
+    keys = ("items", "completion", "finished") + (() if case.get("direct") else ("returned",))
     if len(m) != len(runs) or len(ma) != len(runs):
         return f"model answered {len(m)}/{len(ma)} runs for {len(runs)} schedules"
     bad, unexplained = [], []
@@ -384,8 +522,8 @@ def compare_usage(case, obs, mouts):
         else:
             got = dict(r)
             got.pop("event", None)
-            ok = got == {x: mr[x] for x in ("items", "completion", "finished")} and mr.get("event", True)
-            ok_tree = got == {x: mar[x] for x in ("items", "completion", "finished")} and mar.get("event", True)
+            ok = got == {x: mr[x] for x in keys} and mr.get("event", True)
+            ok_tree = got == {x: mar[x] for x in keys} and mar.get("event", True)
         if not ok:
             bad.append((k, f"implementation {got} but model {mr}" + (" (the model of the tree as it is agrees with the implementation)" if ok_tree else f"; NEITHER does the model of the tree as it is agree: {mar}")))
             if not ok_tree:
@@ -398,6 +536,8 @@ def compare_usage(case, obs, mouts):
 
 
 def compare(case, obs, mouts):
+    if case.get("kind") == "topk":
+        return compare_topk(case, obs, mouts)
     if case.get("kind") == "usage":
         return compare_usage(case, obs, mouts)
     m, ma = mouts[0], mouts[1]
@@ -407,6 +547,8 @@ def compare(case, obs, mouts):
     bad, unexplained = [], []
     for k, (r, mr, mar) in enumerate(zip(runs, m, ma)):
         got = {"items": r[0], "completion": r[1], "finished": r[2]}
+        if len(r) > 3:
+            got.update(tcompletion=r[3], tfinished=r[4])
         if got != mr:
             as_is = dict(got, overflow=False) == mar
             bad.append((k, f"implementation {got} but model {mr}" + (" (the as-is model of the unpatched handler agrees with the implementation)" if as_is else f"; NEITHER does the as-is model agree: {mar}")))
@@ -450,13 +592,19 @@ def expected_usage(case):
 def _failures_usage(case, obs):
     exp = expected_usage(case)
     bad = []
-    if exp is None:
+    if exp is None or (not case.get("direct") and exp_event(case["text"], case["k"]) is False):
+        # the k-th non-empty line is not terminated / nothing non-blank follows it: the waiter must not resume at all
+        for k, r in enumerate(obs["runs"]):
+            if r.get("event", True) and not case.get("direct"):
+                bad.append((k, f"the waiter of wait_top_k_nonempty_lines resumed although the text never has more than {case['k']} non-empty lines"))
         return bad
     for k, r in enumerate(obs["runs"]):
         if not r.get("event", True):
             continue  # not a schedule the library can produce (the waiter cannot have resumed yet)
         delivered = "".join(x for x in r["items"] if isinstance(x, str))
-        if delivered != exp:
+        if not case.get("direct") and r.get("returned") != us.top_k_lines(case["text"], case["k"]):
+            bad.append((k, f"wait_top_k_nonempty_lines returned {r.get('returned')!r}, expected the first {case['k']} non-empty lines {us.top_k_lines(case['text'], case['k'])!r}"))
+        elif delivered != exp:
             bad.append((k, f"the user's handler received {delivered!r}, expected {exp!r}"))
         elif r["completion"] != exp:
             bad.append((k, f"completion {r['completion']!r}, expected {exp!r} (delivered text is right)"))
@@ -465,11 +613,55 @@ def _failures_usage(case, obs):
     return bad
 
 
+def exp_event(text, k):
+    """may the waiter resume at all: the text has more than k non-empty, non-comment lines"""
+    return sum(1 for line in text.split("\n") if us._counts(line)) > k
+
+
+def _failures_topk(case, obs):
+    """written from the docstring of wait_top_k_nonempty_lines: `When k lines have been received (and k+1 has been
+    started) it will return and remove them from the buffer`"""
+    t, k = case["text"], case["k"]
+    bad = []
+    if obs["event"] != exp_event(t, k):
+        bad.append((0, f"event set = {obs['event']} for buffer {t!r}, k={k}"))
+    elif obs["returned"] != us.top_k_lines(t, k):
+        bad.append((0, f"returned {obs['returned']!r}, expected {us.top_k_lines(t, k)!r} for buffer {t!r}"))
+    elif obs["event"] and obs["rest"] != us.rest_after_top_k(t, k):
+        bad.append((0, f"buffer left {obs['rest']!r}, expected {us.rest_after_top_k(t, k)!r} for buffer {t!r}"))
+    return bad
+
+
+def _in_quantifier(case, chunks):
+    """tokens are non-empty; the only exception the handler supports by design is an empty FIRST token through on_llm_new_token"""
+    if "" not in chunks:
+        return True
+    return case["feed"] == "token" and chunks[0] == "" and "" not in chunks[1:]
+
+
 def _failures(case, obs):
+    if case.get("kind") == "topk":
+        return _failures_topk(case, obs)
     if case.get("kind") == "usage":
         return _failures_usage(case, obs)
     exp = expected(case)
     bad = []
+    cks = chunkings_of(case)
+    if not all(_in_quantifier(case, c) for c in cks):
+        return bad  # empty tokens mid-stream (or an empty first chunk through push_chunk = an end marker): model comparison only
+    if case.get("pipe_cfg"):
+        # two-stage pipe: the second handler applies ITS patterns to what the first one delivers.  Its end of stream is
+        # the first handler's end marker; on_llm_end always forwards one (without it the held-back tail stays inside).
+        exp2 = expected(dict(case["pipe_cfg"], text=exp, end="empty"))
+        for k, r in enumerate(obs["runs"]):
+            delivered = "".join(x for x in r[0] if isinstance(x, str))
+            if r[1] != exp:
+                bad.append((k, f"completion of the piping handler {r[1]!r}, expected {exp!r}"))
+            elif "llm_end" in case["end"] and delivered != exp2:
+                bad.append((k, f"the consumer of the piped handler (its own patterns {case['pipe_cfg']}) received {delivered!r}, expected {exp2!r} = its patterns applied to {exp!r}"))
+            elif "llm_end" in case["end"] and r[3] != exp2:
+                bad.append((k, f"completion of the piped handler {r[3]!r}, expected {exp2!r}"))
+        return bad
     for k, r in enumerate(obs["runs"]):
         delivered = "".join(x for x in r[0] if isinstance(x, str))
         if delivered != exp:
@@ -485,6 +677,8 @@ def oracle(case, obs):
     bad = _failures(case, obs)
     if not bad:
         return None
+    if case.get("kind") == "topk":
+        return "[#0] " + bad[0][1]
     k, msg = _pick(case, bad)
     if case.get("kind") == "usage":
         return f"[#{k}] usage {'direct' if case.get('direct') else 'single-call'} text {case['text']!r} schedule (chunks, a, b, end) {us.units(case)[k]!r}: {msg}; {len(bad)}/{len(obs['runs'])} schedules fail"
@@ -522,6 +716,8 @@ def classify_usage(case, unit):
 
 def classify(case, chunks):
     """Structural class of (configuration, text, chunking) — the regions of the open findings."""
+    if case.get("kind") == "topk":
+        return None
     if case.get("kind") == "usage":
         return classify_usage(case, chunks)
     t = case["text"]
@@ -566,6 +762,8 @@ def signature(case, obs, msg):
 # --------------------------------------------------------------------------------------------- evidence helpers
 
 def nontrivial(case, obs):
+    if case.get("kind") == "topk":
+        return "\n" in case["text"] and any(not c.isspace() for c in case["text"])
     if case.get("kind") == "usage":
         return len(obs["runs"]) >= 2 and expected_usage(case) is not None and any(r.get("event", True) for r in obs["runs"])
     if case.get("malformed") or len(obs["runs"]) < 2:
@@ -607,11 +805,18 @@ def tags_usage(case, obs):
 
 
 def tags(case, obs):
+    if case.get("kind") == "topk":
+        t = ["kind:topk", "topk:event-set" if obs["event"] else "topk:event-not-set"]
+        if any(line and not line.strip() and any(ord(c) > 127 for c in line) for line in case["text"].split("\n")):
+            t.append("topk:line-of-non-ascii-blanks-only")
+        return t
     if case.get("kind") == "usage":
         return tags_usage(case, obs)
-    t = ["mode:" + case["mode"], "end:" + case["end"], "pipe" if case["pipe"] else "queue", "feed:" + case["feed"]]
+    t = ["mode:" + case["mode"], "end:" + case["end"], ("pipe-to-configured-handler" if case.get("pipe_cfg") else "pipe") if case["pipe"] else "queue", "feed:" + case["feed"]]
     if case.get("malformed"):
         t.append("malformed-empty-chunk")
+    if case.get("first_empty"):
+        t.append("first-empty-token")
     n = len(case["text"])
     t.append("len:" + (str(n) if n <= 10 else "11-50" if n <= 50 else ">50"))
     t.append("cfg:" + ("P" if case["prefix"] else "-") + ("S" if case["suffix"] else "-") + str(min(len(case["stop"]), 3)))
@@ -638,11 +843,16 @@ def tags(case, obs):
     if len({(tuple(r[0]), r[1]) for r in obs["runs"]}) > 1:
         t.append("segmentation-varies")
     if len({("".join(x for x in r[0] if isinstance(x, str)), r[1]) for r in obs["runs"]}) > 1:
-        t.append("malformed-result-varies" if case.get("malformed") else "RESULT-VARIES-WITH-CHUNKING")
+        t.append("malformed-result-varies" if case.get("malformed") else "two-stage-no-end-marker-varies" if case.get("pipe_cfg") and "llm_end" not in case["end"] else "RESULT-VARIES-WITH-CHUNKING")
     return t
 
 
 def shrink(case):
+    if case.get("kind") == "topk":
+        t = case["text"]
+        for i in range(len(t)):
+            yield dict(case, text=t[:i] + t[i + 1:])
+        return
     if case.get("kind") == "usage":
         un = us.units(case)
         if len(un) > 1:
@@ -668,9 +878,18 @@ def shrink(case):
         yield dict(case, stop=case["stop"][:i] + case["stop"][i + 1:])
     if case["suffix"]:
         yield dict(case, suffix=None)
-    if case["pipe"]:
+    if case.get("pipe_cfg"):
+        pc = case["pipe_cfg"]
+        for i in range(len(pc["stop"])):
+            yield dict(case, pipe_cfg=dict(pc, stop=pc["stop"][:i] + pc["stop"][i + 1:]))
+        if pc["suffix"]:
+            yield dict(case, pipe_cfg=dict(pc, suffix=None))
+        if pc["prefix"]:
+            yield dict(case, pipe_cfg=dict(pc, prefix=None))
+        yield {k: v for k, v in case.items() if k != "pipe_cfg"}
+    elif case["pipe"]:
         yield dict(case, pipe=False)
-    if case["feed"] != "push":
+    if case["feed"] != "push" and "" not in cs:
         yield dict(case, feed="push")
     # 3. merge neighbouring chunks / drop one character
     for i in range(len(cs) - 1):
